@@ -563,7 +563,7 @@ func (generator *BuilderGenerator) structObjectToBuilder(schemas Schemas, schema
 			builder.Constructor.Assignments = append(builder.Constructor.Assignments, constantAssignment)
 			continue
 		}
-		if field.Required && !field.Type.Nullable && generator.fieldIsRefToConcrete(schemas, field) {
+		if generator.fieldIsRefToConcrete(schemas, field) {
 			resolvedType := schemas.ResolveToType(field.Type)
 
 			constantAssignment := ConstantAssignment(PathFromStructField(field), resolvedType.AsScalar().Value)
